@@ -15,6 +15,16 @@ CLAIMED = {
          "Trusted: Coq kernel+vm_compute; harness tools/corr/wlayer.py; the hand-written model is tied by correspondence only (sampled, 1e-11); "
          "PDG.v is the specification. The Kronecker-delta statement is checked on real runs (patrol), its Lagrange-basis theorem is part of C19.",
          "4 C02"),
+ "C03": ("translator tie: every njit kernel and RSL site regenerated from the source each run (tools/pyk2coq.py, sites.py); per distinct (singular, local) pair one generated "
+         "Coq obligation closed by Coquelicot auto_derive + field (exact pairs) or by a field-checked polynomial certificate + CoqInterval bound (rounded Vogt parametrisations); "
+         "generic inductive theorem for from_distr_coeffs / from_delta",
+         "Proof for all x in (0,1) and all argument vectors: loc' = -sing for the 11 exact pairs (splitting LO/NLO, convolved P_qq^2, asymptotic F2/g1 non-singlet incl. Li2(1/(1-z))), "
+         "loc' = -sing + residual/(1-x) with |residual coefficients| <= 5e-5 (1+|q_k|) for nf=3..6 for the 8 NNLO/N3LO parametrised pairs, constancy of the 7 local-only parts, and for ANY "
+         "coefficient list loc = delta - int_0^x sing for the 8 from_distr_coeffs and 11 from_delta sites. Three genuine defects found this way were fixed (922c69ea, 105c5e9b, 4d5dce3f). "
+         "A numerical sweep evaluates the statement on every RSL object the real Combiner builds, incl. the closures that are not translated.",
+         "Trusted: Coq kernel, Coquelicot, CoqInterval; axioms of Reals + funext + classic as printed; the translators; decimal literals read as exact decimals; special functions through "
+         "hypotheses shown satisfiable (SpecialR.v). NOT proved: closures over instance state (heavy CC h_q, asymptotic intrinsic, LeProHQ heavy NC + Adler) and the one pair using "
+         "Nielsen functions above the cut (asy g1 NNLL) — numerical sweep only.", "4 C03"),
  "C13": ("Coq theorems (ring/field over an abstract field; finite case analysis nf=3..6 x pid x beam) on the hand-written coupling/weight model; "
          "model tied to the code by differential correspondence (vm_compute, exact rationals)",
          "Proof: e+(P)=e-(-P) and nubar(P)=nu(-P) for every weight incl. the fl11 class; NC weight = EM weight + eta_gammaZ*(...) hence exact "
